@@ -190,6 +190,25 @@ def cases(tier):
                     'cfg': dict(cfg, numdialect=True)})
         out.append({'tables': [many_sorted, {'fields': [['z', 'string']], 'rows': [[E('x')]]}], 'cfg': dict(cfg, chain_other_format=True)})
         out.append({'tables': [many_sorted], 'cfg': dict(cfg, revkeys=True)})
+    # values of different types that are equal as Python objects (True == 1 == Decimal('1.00'), False == 0): each must be
+    # written in its own type's notation, in one table and across the resources of one dump
+    import decimal
+    eq_tbl = {'fields': [['a_b', 'boolean'], ['b_n', 'number'], ['c_i', 'integer'], ['d_s', 'string']],
+              'rows': [[E(True), E(decimal.Decimal('1')), E(1), E('1')], [E(False), E(decimal.Decimal('0.00')), E(0), E('0')],
+                       [E(None), E(decimal.Decimal('1.00')), E(1), E('True')]]}
+    eq_num = {'fields': [['n', 'number']], 'rows': [[E(decimal.Decimal('1'))], [E(decimal.Decimal('0'))]]}
+    eq_bool = {'fields': [['b', 'boolean']], 'rows': [[E(True)], [E(False)]]}
+    for cfg in axis:
+        if not cfg.get('pk'):
+            out.append({'tables': [eq_tbl], 'cfg': cfg})
+            out.append({'tables': [eq_bool, eq_num], 'cfg': cfg})
+            out.append({'tables': [eq_num, eq_bool], 'cfg': cfg})
+    # every row count around plausible buffer / batch sizes (a writer that buffers rows must close the file correctly for each)
+    sizes = list(range(0, 131)) + [192, 200, 255, 256, 257, 500, 512, 1000, 1024, 2048]
+    for n in sizes:
+        tbl = {'fields': [['i', 'integer'], ['s', 'string']], 'rows': [[E(k), E('r%d' % k if k % 5 else None)] for k in range(n)]}
+        for fmt in ('csv', 'json'):
+            out.append({'tables': [tbl], 'cfg': {'format': fmt, 'how': 'path', 'filehash': False, 'temporal': False}})
     for cfg in full:
         for pk in (False, True):
             out.append({'tables': [many], 'cfg': dict(cfg, pk=pk)})
